@@ -2,7 +2,9 @@
 // (pkg/binder/binding/resourcereservation), the real Binder.Bind / Rollback and
 // the real pod / BindRequest controllers' event handlers on controller-runtime's
 // fake client, with fault and crash injection at the k-th API call, and emits
-// the observations as Coq cases for Run/C17.v.
+// the observations as Coq cases for Run/C17.v. race.go / racegen.go add the
+// controlled interleavings of two operations (one parked before its k-th API
+// call, the other injected), checked for linearizability against the model.
 package c17
 
 import (
@@ -216,17 +218,42 @@ type apiServer struct {
 	ic   client.WithWatch
 
 	mu     sync.Mutex
+	cur    *opCtx   // the step that is running (sequential histories)
+	race   *raceCtl // controlled interleaving of two operations (race.go); nil otherwise
+	resSeq map[string]int
+	nextID int
+	brs    map[string]*v1alpha2.BindRequest
+	given  map[string][][2]string
+	jitter func() // widens race windows in the concurrent smoke test
+}
+
+// opCtx is what belongs to ONE operation (a step of a sequential history, or
+// one of the two operations of a race): its API call counter and log, its
+// fault oracle, the Go map orders read off the run, the device plugin's
+// answers to the reservation pods it creates, the watch events it caused.
+type opCtx struct {
+	id     int // 0: the step / operation A, 1: operation B
 	k      int
 	calls  []string
 	fl     Faults
 	visits [][]string
 	dp     []int // device plugin answers (index, -1: never annotates)
-	resSeq map[string]int
-	nextID int
 	pend   []pendingDel
-	brs    map[string]*v1alpha2.BindRequest
-	given  map[string][][2]string
-	jitter func() // widens race windows in the concurrent smoke test
+	// race bookkeeping (guarded by raceCtl.mu)
+	inCall   bool
+	parked   bool
+	progress int
+	last     time.Time
+}
+
+// op returns the context of the operation the calling goroutine belongs to.
+func (s *apiServer) op() *opCtx {
+	if rc := s.race; rc != nil {
+		if o := rc.opOf(goid()); o != nil {
+			return o
+		}
+	}
+	return s.cur
 }
 
 func nodeNameIndexer(o client.Object) []string {
@@ -239,7 +266,7 @@ func nodeNameIndexer(o client.Object) []string {
 
 func newAPIServer(scheme *runtime.Scheme, objs ...client.Object) *apiServer {
 	s := &apiServer{resSeq: map[string]int{}, nextID: 1, brs: map[string]*v1alpha2.BindRequest{},
-		given: map[string][][2]string{}, fl: Faults{Crash: -1}}
+		given: map[string][][2]string{}, cur: &opCtx{fl: Faults{Crash: -1}}}
 	s.base = fake.NewClientBuilder().WithScheme(scheme).WithObjects(objs...).
 		WithIndex(&v1.Pod{}, "spec.nodeName", nodeNameIndexer).Build()
 	s.ic = interceptor.NewClient(s.base, interceptor.Funcs{
@@ -247,6 +274,7 @@ func newAPIServer(scheme *runtime.Scheme, objs ...client.Object) *apiServer {
 			if err := s.gate("get"); err != nil {
 				return err
 			}
+			defer s.leave()
 			return c.Get(ctx, key, obj, opts...)
 		},
 		List: func(ctx context.Context, c client.WithWatch, list client.ObjectList, opts ...client.ListOption) error {
@@ -259,6 +287,7 @@ func newAPIServer(scheme *runtime.Scheme, objs ...client.Object) *apiServer {
 			if err := s.gate("list"); err != nil {
 				return err
 			}
+			defer s.leave()
 			if exists {
 				s.newVisit()
 			}
@@ -268,6 +297,7 @@ func newAPIServer(scheme *runtime.Scheme, objs ...client.Object) *apiServer {
 			if err := s.gate("create"); err != nil {
 				return err
 			}
+			defer s.leave()
 			if err := c.Create(ctx, obj, opts...); err != nil {
 				return err
 			}
@@ -280,24 +310,28 @@ func newAPIServer(scheme *runtime.Scheme, objs ...client.Object) *apiServer {
 			if err := s.gate("delete"); err != nil {
 				return err
 			}
+			defer s.leave()
 			return s.deleteObject(ctx, obj, opts...)
 		},
 		Patch: func(ctx context.Context, c client.WithWatch, obj client.Object, patch client.Patch, opts ...client.PatchOption) error {
 			if err := s.gate("patch"); err != nil {
 				return err
 			}
+			defer s.leave()
 			return c.Patch(ctx, obj, patch, opts...)
 		},
 		Update: func(ctx context.Context, c client.WithWatch, obj client.Object, opts ...client.UpdateOption) error {
 			if err := s.gate("update"); err != nil {
 				return err
 			}
+			defer s.leave()
 			return c.Update(ctx, obj, opts...)
 		},
 		Watch: func(ctx context.Context, c client.WithWatch, list client.ObjectList, opts ...client.ListOption) (watch.Interface, error) {
 			if err := s.gate("watch"); err != nil {
 				return nil, err
 			}
+			defer s.leave()
 			lo := &client.ListOptions{}
 			lo.ApplyOptions(opts)
 			name := ""
@@ -320,6 +354,7 @@ func newAPIServer(scheme *runtime.Scheme, objs ...client.Object) *apiServer {
 			if err := s.gate("bind"); err != nil {
 				return err
 			}
+			defer s.leave()
 			b, ok := subObj.(*v1.Binding)
 			if sub != "binding" || !ok {
 				return apierrors.NewBadRequest("unsupported sub-resource")
@@ -356,37 +391,59 @@ func selectorOnGroup(lo *client.ListOptions) (exists bool, eq string) {
 	return
 }
 
-// gate numbers the call, applies the step's fault oracle and logs the call.
+// gate numbers the call within its operation, applies the operation's fault
+// oracle and logs the call. In a race the controller may park the operation
+// here, BEFORE the call takes effect.
 func (s *apiServer) gate(kind string) error {
 	if s.jitter != nil {
 		s.jitter()
 	}
+	o := s.op()
+	rc := s.race
+	if rc != nil {
+		rc.beforeCall(o, kind)
+	}
 	s.mu.Lock()
 	defer s.mu.Unlock()
-	idx := s.k
-	if s.fl.Crash == idx {
+	idx := o.k
+	if o.fl.Crash == idx {
 		panic(crashSignal{})
 	}
-	s.k++
-	s.calls = append(s.calls, kind)
-	for _, e := range s.fl.Err {
+	o.k++
+	o.calls = append(o.calls, kind)
+	if rc != nil {
+		rc.logCall(o, kind)
+	}
+	for _, e := range o.fl.Err {
 		if e == idx {
+			if rc != nil {
+				rc.afterCall(o)
+			}
 			return apierrors.NewServiceUnavailable("injected fault")
 		}
 	}
 	return nil
 }
 
+// leave: the API call of the calling operation has returned.
+func (s *apiServer) leave() {
+	if rc := s.race; rc != nil {
+		rc.afterCall(s.op())
+	}
+}
+
 func (s *apiServer) newVisit() {
+	o := s.op()
 	s.mu.Lock()
-	s.visits = append(s.visits, []string{})
+	o.visits = append(o.visits, []string{})
 	s.mu.Unlock()
 }
 
 func (s *apiServer) noteGroupSync(g string) {
+	o := s.op()
 	s.mu.Lock()
-	if n := len(s.visits); n > 0 {
-		s.visits[n-1] = append(s.visits[n-1], g)
+	if n := len(o.visits); n > 0 {
+		o.visits[n-1] = append(o.visits[n-1], g)
 	}
 	s.mu.Unlock()
 }
@@ -395,13 +452,14 @@ func (s *apiServer) noteGroupSync(g string) {
 // reservation pod: it gets an identity (creation order) and, if the oracle
 // says so, the index annotation.
 func (s *apiServer) devicePlugin(ctx context.Context, pod *v1.Pod) {
+	o := s.op()
 	s.mu.Lock()
 	s.resSeq[pod.Name] = s.nextID
 	s.nextID++
 	ans := -1
-	if len(s.dp) > 0 {
-		ans = s.dp[0]
-		s.dp = s.dp[1:]
+	if len(o.dp) > 0 {
+		ans = o.dp[0]
+		o.dp = o.dp[1:]
 	}
 	s.mu.Unlock()
 	if ans < 0 {
@@ -433,10 +491,11 @@ func (s *apiServer) deleteObject(ctx context.Context, obj client.Object, opts ..
 		return err
 	}
 	if cur != nil {
+		o := s.op()
 		s.mu.Lock()
 		br := s.brs[cur.Name]
 		delete(s.brs, cur.Name)
-		s.pend = append(s.pend, pendingDel{pod: cur, br: br})
+		o.pend = append(o.pend, pendingDel{pod: cur, br: br})
 		s.mu.Unlock()
 	}
 	return nil
@@ -516,14 +575,15 @@ func consumerPod(name string, mf int) *v1.Pod {
 
 // drain delivers the queued delete events to the real handlers.
 func (b *binderProc) drain() {
+	o := b.srv.op()
 	for {
 		b.srv.mu.Lock()
-		if len(b.srv.pend) == 0 {
+		if len(o.pend) == 0 {
 			b.srv.mu.Unlock()
 			return
 		}
-		d := b.srv.pend[0]
-		b.srv.pend = b.srv.pend[1:]
+		d := o.pend[0]
+		o.pend = o.pend[1:]
 		b.srv.mu.Unlock()
 		b.srv.newVisit()
 		b.ctl.podInf.Delete(d.pod)
@@ -536,7 +596,7 @@ func (b *binderProc) drain() {
 // ------------------------------------------------------------------- events
 
 type Event struct {
-	Kind      string // bind phase delete brdelete resgone nodesync restart
+	Kind      string // bind phase delete brdelete resgone nodesync restart; races only: reserve syncgroup
 	Pod       string
 	Node      string
 	Groups    []string
@@ -581,15 +641,14 @@ func phaseRank(p v1.PodPhase) int {
 	return 0
 }
 
-// runStep executes one step on the real code. It returns 0 (finished), 1
-// (SyncForNode / Sync returned an error) or 2 (crashed).
+// runStep executes one step of a sequential history on the real code. It
+// returns 0 (finished), 1 (SyncForNode / Sync returned an error) or 2 (crashed).
 func (b *binderProc) runStep(st *Step) (out int) {
 	s := b.srv
+	o := &opCtx{fl: st.Fl, dp: append([]int(nil), st.Dp...)}
 	s.mu.Lock()
-	s.k, s.calls, s.fl, s.visits = 0, nil, st.Fl, nil
-	s.dp = append([]int(nil), st.Dp...)
+	s.cur = o
 	s.mu.Unlock()
-	ctx := context.Background()
 	defer func() {
 		if r := recover(); r != nil {
 			if _, ok := r.(crashSignal); !ok {
@@ -597,22 +656,32 @@ func (b *binderProc) runStep(st *Step) (out int) {
 			}
 			out = 2
 			s.mu.Lock()
-			s.pend = nil // a dead process handles no event; they are gone when it comes back
+			o.pend = nil // a dead process handles no event; they are gone when it comes back
 			s.mu.Unlock()
 			b.start() // the process memory (group locks included) is gone
 		}
 		s.mu.Lock()
-		st.Calls = append([]string(nil), s.calls...)
-		st.Visits = s.visits
-		s.fl = Faults{Crash: -1}
+		st.Calls = append([]string(nil), o.calls...)
+		st.Visits = o.visits
+		o.fl = Faults{Crash: -1}
 		s.mu.Unlock()
 	}()
+	out, _ = b.doEvent(st)
+	return out
+}
+
+// doEvent is the body of one operation: it runs in the goroutine of its
+// operation (apiServer.op finds the operation's context). The second result
+// is the device index ReserveGpuDevice returned ("reserve" only).
+func (b *binderProc) doEvent(st *Step) (out int, idx string) {
+	s := b.srv
+	ctx := context.Background()
 	ev := st.Ev
 	switch ev.Kind {
 	case "bind":
 		pod := &v1.Pod{}
 		if err := s.base.Get(ctx, client.ObjectKey{Namespace: consNS, Name: ev.Pod}, pod); err != nil || pod.Spec.NodeName != "" {
-			return 0
+			return 0, ""
 		}
 		br := &v1alpha2.BindRequest{
 			ObjectMeta: metav1.ObjectMeta{Name: ev.Pod, Namespace: consNS},
@@ -633,11 +702,11 @@ func (b *binderProc) runStep(st *Step) (out int) {
 	case "phase":
 		pod := &v1.Pod{}
 		if err := s.base.Get(ctx, client.ObjectKey{Namespace: consNS, Name: ev.Pod}, pod); err != nil {
-			return 0
+			return 0, ""
 		}
 		np := v1.PodPhase(ev.Phase)
 		if phaseRank(np) <= phaseRank(pod.Status.Phase) {
-			return 0
+			return 0, ""
 		}
 		old := pod.DeepCopy()
 		pod.Status.Phase = np
@@ -691,21 +760,41 @@ func (b *binderProc) runStep(st *Step) (out int) {
 		err := b.svc.SyncForNode(ctx, ev.Node)
 		b.drain()
 		if err != nil {
-			return 1
+			return 1, ""
 		}
 	case "restart":
 		b.start()
 		if err := b.svc.Sync(ctx); err != nil {
+			o := s.op()
 			s.mu.Lock()
-			s.pend = nil
+			o.pend = nil
 			s.mu.Unlock()
-			return 1
+			return 1, ""
 		}
 		b.drain()
+	case "reserve":
+		// the raw service call (what Binder.reserveGPUs does per selected group)
+		// (only for a pod that is not bound yet, as the reconciler does)
+		pod := &v1.Pod{}
+		if err := s.base.Get(ctx, client.ObjectKey{Namespace: consNS, Name: ev.Pod}, pod); err != nil || pod.Spec.NodeName != "" {
+			return 0, ""
+		}
+		i, err := b.svc.ReserveGpuDevice(ctx, pod, ev.Node, ev.Group)
+		b.drain()
+		if err != nil {
+			return 1, ""
+		}
+		return 0, i
+	case "syncgroup":
+		err := b.svc.SyncForGpuGroup(ctx, ev.Group)
+		b.drain()
+		if err != nil {
+			return 1, ""
+		}
 	default:
 		panic("unknown event " + ev.Kind)
 	}
-	return 0
+	return 0, ""
 }
 
 func multiOnly(p *v1.Pod) bool {
@@ -725,7 +814,7 @@ func multiOnly(p *v1.Pod) bool {
 // left: before commit 5990b65 the handlers then synced nothing (the tags keep
 // these histories recognisable as regressions of that fix).
 func (b *binderProc) tagsFor(p *v1.Pod, what string, cond bool) []string {
-	if cond && multiOnly(p) && b.srv.fl.none() {
+	if cond && multiOnly(p) && b.srv.op().fl.none() {
 		return []string{"multifraction-" + what}
 	}
 	return nil
@@ -802,6 +891,10 @@ func (e Event) String() string {
 		return fmt.Sprintf("resgone(%s)", e.Group)
 	case "nodesync":
 		return fmt.Sprintf("nodesync(%s)", e.Node)
+	case "reserve":
+		return fmt.Sprintf("reserve(%s,%s,%s)", e.Pod, e.Node, e.Group)
+	case "syncgroup":
+		return fmt.Sprintf("syncgroup(%s)", e.Group)
 	}
 	return e.Kind
 }
